@@ -10,5 +10,6 @@ INVARIANT ReassembledExact
 INVARIANT DeliveredInOrderOnce
 INVARIANT InterleaveOnlyOtherStreams
 INVARIANT CacheSingleFrame
+INVARIANT WrittenOnce
 PROPERTY EventuallyDrained
 PROPERTY AllDelivered
